@@ -102,16 +102,18 @@ structure Cfg where
   depth : Nat := 0
   /-- all 19 blend modes (else Normal only) -/
   blendModes : Bool := true
+  /-- indexed sprites whose only palette is a (possibly sparse, multi-packet) legacy chunk -/
+  legacyOnly : Bool := false
   deriving Repr, Inhabited
 
 def bppOf (depth : Nat) : Nat := depth / 8
 
 /-- raw pixel bytes for `n` pixels; indexed pixels drawn from the palette ids `first..first+count-1` -/
-def pixelsG (depth : Nat) (palFirst palCount : Nat) (n : Nat) : G Bytes := do
+def pixelsG (depth : Nat) (ids : List Nat) (n : Nat) : G Bytes := do
   if depth == 8 then
     (List.range n).mapM (fun _ => do
-      let i ← below palCount
-      pure (UInt8.ofNat (palFirst + i)))
+      let i ← below ids.length
+      pure (UInt8.ofNat (ids.getD i 0)))
   else if depth == 16 then do
     let l ← (List.range n).mapM (fun _ => do
       let v ← edgeByte
@@ -174,8 +176,8 @@ def programG (cfg : Cfg) : G Program := do
   let palFirst ← if depth == 8 then (do if ← chance 1 3 then range 1 40 else pure 0) else pure 0
   let palCount ← range 1 20
   let tci ← if ← chance 1 2 then (do let i ← below palCount; pure (UInt8.ofNat (palFirst + i))) else byte
-  let hasNewPal ← if depth == 8 then pure true else chance 1 2
-  let hasOldPal ← if cfg.oldPalette then chance 1 3 else pure false
+  let hasNewPal ← if cfg.legacyOnly then pure false else if depth == 8 then pure true else chance 1 2
+  let hasOldPal ← if cfg.legacyOnly then pure true else if cfg.oldPalette then chance 1 3 else pure false
   let palEntries ← (List.range palCount).mapM (fun _ => do
     let hasName ← chance 1 4
     let hi ← if ← chance 1 4 then (do let x ← below 100; pure (x * 2)) else pure 0
@@ -185,7 +187,7 @@ def programG (cfg : Cfg) : G Program := do
   let oldPackets ← (do
     let np ← range 1 3
     (List.range np).mapM (fun _ => do
-      let skip ← below 4
+      let skip ← below 7
       let cnt ← if ← chance 1 10 then pure 256 else range 1 6
       let cols ← (List.range cnt).mapM (fun _ => do
         if oldScaled then
@@ -194,6 +196,17 @@ def programG (cfg : Cfg) : G Program := do
         else pure (← edgeByte, ← byte, ← byte))
       pure (UInt8.ofNat skip, cols)))
   let oldPal : Item := .oldPalette oldScaled oldPackets
+  -- palette ids usable by indexed pixels: the new palette's range, or (legacy only) the union of
+  -- the packets' ranges at the cumulative skip offsets, restricted to byte-sized ids
+  let legacyIds : List Nat := Id.run do
+    let mut skip := 0
+    let mut ids : List Nat := []
+    for (sk, cols) in oldPackets do
+      skip := skip + sk.toNat
+      ids := ids ++ (List.range cols.length).map (· + skip)
+    pure ((ids.filter (· < 256)).eraseDups)
+  let palIds : List Nat :=
+    if hasNewPal then (List.range palCount).map (· + palFirst) else legacyIds
   -- tilesets
   let nTilesets ← if cfg.tilesets then (do if ← chance 1 2 then range 1 2 else pure 0) else pure 0
   let bpp := bppOf depth
@@ -201,7 +214,7 @@ def programG (cfg : Cfg) : G Program := do
     let tw ← range 1 5
     let th ← range 1 4
     let count ← range 1 5
-    let px ← pixelsG depth palFirst palCount (count * tw * th)
+    let px ← pixelsG depth palIds (count * tw * th)
     let hasExt ← chance 1 4
     let flagsHi ← if ← chance 1 4 then (do let x ← below 50; pure (x * 8)) else pure 0
     let emptyZero ← chance 3 4
@@ -335,7 +348,7 @@ def programG (cfg : Cfg) : G Program := do
           else do
             let cw ← range 1 (w + 3)
             let chh ← range 1 (h + 3)
-            let px ← pixelsG depth palFirst palCount (cw * chh)
+            let px ← pixelsG depth palIds (cw * chh)
             pure (CelBody.image (UInt16.ofNat cw) (UInt16.ofNat chh) px
                     (if kind == 2 then some (Zlib.deflateStored px) else none)))
         -- tile-aligned offsets for tilemap cels
